@@ -2,7 +2,7 @@
    qsign q0 n := -1 if q0/n < 0 else 1;  dcm_angle e := 0 if e > 1, the double pi if e < -1, acos e otherwise;
    nsq v := v.v;  eps = the double 1e-3. *)
 From Coq Require Import Reals List Lra.
-From Cyecca Require Import Base.Ops Spec.Mat Gen.Series Gen.SO3Quat Gen.SO3Mrp Gen.SO3Dcm Proofs.SeriesFacts Proofs.C02 Proofs.C03.
+From Cyecca Require Import Base.Ops Spec.Mat Gen.Series Gen.SO2 Gen.SE2 Gen.SO3Quat Gen.SO3Mrp Gen.SO3Dcm Proofs.SeriesFacts Proofs.C02 Proofs.C03.
 Import ListNotations.
 Local Open Scope R_scope.
 
@@ -76,7 +76,21 @@ Theorem C03_mrp_log_principal : forall r0 r1 r2,
   0 <= 4 * atan (sqrt (nsq r0 r1 r2)) <= PI.
 Proof. exact mrp_log_principal. Qed.
 
+(* SE(2) log: translation through the inverse of V(theta) (series_1 = sin x/x, series_3 = (1-cos x)/x), heading returned as given *)
+Theorem C03_se2_log_struct : forall x y th,
+  SE2_log x y th = let a := hd 0 (series_1 th) in let b := hd 0 (series_3 th) in
+                   [a / (a * a + b * b) * x + b / (a * a + b * b) * y; a / (a * a + b * b) * y - b / (a * a + b * b) * x; th].
+Proof. exact se2_log_struct. Qed.
+
+(* log (exp v) = v in SE(2) for every heading and translation, in both cells of the series, whenever V(theta) is invertible *)
+Theorem C03_se2_log_exp : forall x y th,
+  hd 0 (series_1 th) * hd 0 (series_1 th) + hd 0 (series_3 th) * hd 0 (series_3 th) <> 0 ->
+  SE2_log_v (SE2_exp x y th) = [x; y; th].
+Proof. exact se2_log_exp. Qed.
+
 Print Assumptions C03_quat_log_struct.
+Print Assumptions C03_se2_log_struct.
+Print Assumptions C03_se2_log_exp.
 Print Assumptions C03_quat_log_sign.
 Print Assumptions C03_quat_log_identity.
 Print Assumptions C03_quat_log_exp_large.
